@@ -140,8 +140,10 @@ func c17Script(c c17Case) harness.Script {
 }
 
 func enhLooking(s string) bool {
+	// the first word of the first line (on the wire nothing tells a code the
+	// server added from text that happens to look like one)
 	w := s
-	if i := strings.IndexByte(s, ' '); i >= 0 {
+	if i := strings.IndexAny(s, " \n"); i >= 0 {
 		w = s[:i]
 	}
 	parts := strings.Split(w, ".")
